@@ -51,9 +51,40 @@ func checkC16(c *Ctx) {
 	c.starSkeleton()
 	c.generatorCommands("GENCMD")
 	c.orientRule("ORIENT")
+	c.Decides("GF: RerootFirst, which the insertion generators call for an unrooted request, ends with a non-nil error when no node with three neighbours exists (the two-tip case): that error is what rejects the size the guard lets through")
+	if fi := c.Func("tree", "Tree", "RerootFirst"); fi != nil {
+		info := fi.Pkg.TypesInfo
+		good := false
+		var at token.Pos = fi.Decl.Pos()
+		if n := len(fi.Decl.Body.List); n > 0 {
+			if r, ok := fi.Decl.Body.List[n-1].(*ast.ReturnStmt); ok && len(r.Results) == 1 {
+				at = r.Pos()
+				good = !isNilIdent(info, r.Results[0]) && identObj(info, r.Results[0]) == nil
+				if cl, ok := unparen(r.Results[0]).(*ast.CallExpr); ok {
+					fn := calleeOf(info, cl)
+					good = fn != nil && fn.Pkg() != nil && ((fn.Pkg().Path() == "errors" && fn.Name() == "New") || (fn.Pkg().Path() == "fmt" && fn.Name() == "Errorf"))
+				}
+			}
+		}
+		c.Check(good, "GF", "tree.Tree.RerootFirst/not-found-is-an-error", at, "falls through to a constructed error", "RerootFirst does not end with a constructed error when its search finds no node with three neighbours: an unrooted two-tip request is no longer refused and the generator returns a tree rooted on a tip").Clause = "Sizes below the documented minimum are rejected with an error rather than a crash"
+	}
 	c.Decides("BUF-FLUSH: every bufio.Writer of the repository (none in the generate commands today) is flushed, and not by a deferred Flush that would run after an ordinary close of its file")
 	c.bufFlush("BUF-FLUSH", c.All, "returns each of the ... topologies exactly once")
 	c.Floor("BUF-FLUSH", 3)
+	c.Decides("ERR-DEAD: in the generators (tree/treegen.go) and the generate commands, the error a call stores in a variable is read before that variable is assigned again on every path (go/cfg): the size error of a generator cannot be overwritten by a later call before it is tested")
+	c.Decides("ERR-SWALLOW: in the same files, a branch entered because an error value is non-nil does not leave the function with a nil error (no `return nil`, no bare return with an unset named result)")
+	c.errDeadIn("Sizes below the documented minimum are rejected with an error rather than a crash", 10, "tree/treegen.go", "cmd/uniformtree.go", "cmd/yuletree.go", "cmd/balancedtree.go", "cmd/caterpillartree.go", "cmd/startree.go", "cmd/topologies.go", "cmd/generate.go")
+	if fx := c.Fixture(); fx != nil {
+		sub := c.subCtx(fx)
+		var fs []*FuncInfo
+		for _, fi := range sub.AllFuncs() {
+			if fi.Obj.Name() == "C16ErrDead" {
+				fs = append(fs, fi)
+			}
+		}
+		_, nv := sub.errDead("ERR-DEAD", fs, func(info *types.Info, call *ast.CallExpr) bool { return true }, "")
+		c.Control("ERR-DEAD", nv == 1, "fixture.C16ErrDead overwrites the error of Open with the one of WriteString before the loop condition reads it")
+	}
 	c.Decides("SHADOW-RESULT: no function of the repository with a named error result (the RunE closures of the generate commands included) hides that result behind an inner `err :=` whose failure branch neither returns nor stops: the rejection of a bad size would be logged and reported as success")
 	nsr, _ := c.shadowResult("SHADOW-RESULT", c.All, "sizes below the documented minimum are rejected with an error")
 	if nsr < 100 {
